@@ -8,6 +8,7 @@ This module also holds the command-description helpers shared with c05.py and c1
 """
 from __future__ import annotations
 
+import copy
 import io
 import itertools
 import json
@@ -385,7 +386,10 @@ def _check_mutate(ctx, d, c):
         obj.data.seek(len(data) // 2)
     else:
         obj = build(desc)
-    cur = with_fields(desc, {})
+    for st in c["steps"]:
+        if st["how"] not in ("none", "set", "pset", "set_placement", "set_data", "set_filename"):
+            raise ValueError(st["how"])
+    cur = copy.deepcopy(with_fields(desc, {}))           # never edit the case itself
     # a second command sharing the PlacementData object
     other = other_desc = None
     if typ == "T" and c.get("shared") and obj.placement is not None:
@@ -399,14 +403,14 @@ def _check_mutate(ctx, d, c):
             if o is None:
                 continue
             impl = ser(o)
-            ctx.eq(f"serialisation #{i + 1} of the same {nm}", at, impl, model_ser(d, tokens(ds)))
+            ctx.eq(f"serialisation #{i + 2} of the same {nm}", at, impl, model_ser(d, tokens(ds)))
             full = impl[2]
             if c.get("via") == "send" and not is_inline(ds):
                 out = io.BytesIO()
                 o.send(out, gc.GraphicsCommand.DEFAULT_TEMPLATE, max_size=None)
-                ctx.eq(f"send #{i + 1} of the same {nm}", at, hx(out.getvalue()), full)
+                ctx.eq(f"send #{i + 2} of the same {nm}", at, hx(out.getvalue()), full)
                 full = hx(out.getvalue())
-            if not judge(ctx, d, at, f"serialisation #{i + 1} of the same {nm} does not decode to the fields set at that moment", full, ds):
+            if not judge(ctx, d, at, f"serialisation #{i + 2} of the same {nm} does not decode to the fields set at that moment", full, ds):
                 return False
         return True
 
@@ -439,12 +443,8 @@ def _check_mutate(ctx, d, c):
             elif how == "set_filename":
                 obj.set_filename(st["text"])
                 cur = with_fields(cur, {"data": {"text": st["text"]}})
-            else:
-                raise ValueError(how)
             if not stage(i):
                 return
-    except ValueError:
-        raise
     except Exception as e:  # the model has no error path here
         ctx.mismatch("in-place edit / serialisation raised", c, repr(e)[:200], "no error")
 
@@ -591,6 +591,138 @@ def cases(ctx: Ctx):
             yield {"k": "cmd", "cmd": simple_desc(rng, typ, flds, present, rnd_data(rng, 300)), "via": "send", "max": None}
 
 
+# ---------------------------------------------------------------------------------------
+# second-round families: name payloads through send()/split(), derivation entry points, in-place edits
+# ---------------------------------------------------------------------------------------
+NAMES = ["", "psm_1a2b3c4d", "/tmp/img.png", "/dev/shm/" + "n" * 69, "/" + "n" * 254, "/tmp/d\u00efr/" + "x" * 40 + ".png", "/x" * 300]
+FIELDS_OF = {"T": T_FIELDS + ["omit_action", "placement", "data"], "M": M_FIELDS + ["data"], "P": PUT_FIELDS, "D": D_FIELDS}
+
+
+def rnd_placement(rng, dens=0.5):
+    return {k: field_value(rng, k) for k in P_FIELDS if rng.random() < dens}
+
+
+def kw_value(rng, field, mode):
+    """mode: 'none' | 'falsy' | 'value' for one keyword argument / attribute"""
+    if field == "data":
+        return rnd_data(rng) or {"hex": ""}
+    if field == "omit_action":
+        return mode == "value"
+    if field == "placement":
+        return None if mode == "none" else {} if mode == "falsy" else rnd_placement(rng)
+    if mode == "none":
+        return None
+    if mode == "falsy":
+        if field in ENUM_OF:
+            return enum_names(field)[0]
+        if field in ("more", "query", "virtual", "do_not_move_cursor", "delete_data"):
+            return False
+        return 0
+    v = field_value(rng, field)
+    if isinstance(v, bool):
+        return True
+    return v or 1
+
+
+def rnd_desc(rng, typ, dens):
+    if typ == "T":
+        d = t_desc(rng, [s for s in t_slots() if rng.random() < dens], rnd_data(rng))
+        if "placement" in d["f"] and rng.random() < 0.5:
+            d["f"]["placement"].setdefault("rows", 2)
+        return d
+    flds = {"P": PUT_FIELDS, "D": D_FIELDS, "M": M_FIELDS}[typ]
+    return simple_desc(rng, typ, flds, [s for s in flds if rng.random() < dens], rnd_data(rng))
+
+
+def rnd_kw(rng, typ, fields=None, nmax=3):
+    fields = fields or FIELDS_OF[typ]
+    return {f: kw_value(rng, f, rng.choice(["none", "none", "falsy", "value", "value"])) for f in rng.sample(fields, rng.randrange(1, min(nmax, len(fields)) + 1))}
+
+
+def cases2(ctx: Ctx):
+    rng = ctx.rng
+    quick = ctx.quick
+    # --- name payloads x media x limits below / around / above what the name needs, through send() and split()
+    for m in enum_names("medium"):
+        if m == "DIRECT":
+            continue
+        for name in NAMES:
+            for more in [None, False, True]:
+                f = {"medium": m, "more": more}
+                for fld in T_INT + ["format", "quiet", "compression"]:
+                    if rng.random() < 0.3:
+                        f[fld] = field_value(rng, fld)
+                if rng.random() < 0.3:
+                    f["placement"] = rnd_placement(rng, 0.3)
+                for mx in [None, 4096, 1024, 256, 128, 96, 40, 0]:
+                    if quick and rng.random() < 0.4:
+                        continue
+                    yield {"k": "cmd", "cmd": {"type": "T", "f": f, "data": {"text": name}}, "via": "send", "max": mx}
+                for n in [1, 10, 77, 4096]:
+                    if quick and rng.random() < 0.4:
+                        continue
+                    yield {"k": "cmd", "cmd": {"type": "T", "f": f, "data": {"text": name}}, "via": "split", "n": n}
+    # --- derivation entry points: one argument at a time on a fully set and on a sparse command ...
+    for typ in "TMPD":
+        for fld in FIELDS_OF[typ]:
+            for mode in ["none", "falsy", "value"]:
+                for dens in [1.0, 0.3]:
+                    yield {"k": "derive", "cmd": rnd_desc(rng, typ, dens), "ops": [{"how": "clone", "kw": {fld: kw_value(rng, fld, mode)}}]}
+    for dens in [0.0, 0.3, 1.0]:
+        for _ in range(6):
+            yield {"k": "derive", "cmd": rnd_desc(rng, "T", dens), "ops": [{"how": rng.choice(["pure", "put"])}]}
+    # ... and chains (clone of a clone, pure/put of a clone, clone of the put command)
+    for _ in range(1500 if quick else 30000):
+        typ = rng.choice("TTTMPD")
+        desc = rnd_desc(rng, typ, rng.choice([0.2, 0.6, 1.0]))
+        ops = []
+        t = typ
+        for _j in range(rng.randrange(1, 4)):
+            how = rng.choice(["clone", "clone", "pure", "put"]) if t == "T" else "clone"
+            if how == "clone":
+                ops.append({"how": "clone", "kw": rnd_kw(rng, t)})
+            else:
+                ops.append({"how": how})
+                if how == "put":
+                    t = "P"
+        yield {"k": "derive", "cmd": desc, "ops": ops}
+    # --- the same object serialised again after in-place edits: every placement field through the nested object ...
+    for fld in P_FIELDS:
+        for mode in ["none", "falsy", "value"]:
+            for dens in [0.0, 1.0]:
+                for shared in [False, True]:
+                    yield {"k": "mutate", "cmd": {"type": "T", "f": {"image_id": rng.choice(BOUNDARY), "placement": rnd_placement(rng, dens)},
+                                                  "data": rnd_data(rng)},
+                           "shared": shared, "steps": [{"how": "pset", "kw": {fld: kw_value(rng, fld, mode)}}]}
+    for typ in "TMPD":
+        for fld in FIELDS_OF[typ]:
+            for mode in ["none", "falsy", "value"]:
+                yield {"k": "mutate", "cmd": rnd_desc(rng, typ, rng.choice([0.3, 1.0])), "steps": [{"how": "set", "kw": {fld: kw_value(rng, fld, mode)}}]}
+    # ... and random edit sequences
+    for _ in range(1500 if quick else 30000):
+        typ = rng.choice("TTTMPD")
+        desc = rnd_desc(rng, typ, rng.choice([0.2, 0.6, 1.0]))
+        if typ == "T" and rng.random() < 0.5 and desc["f"].get("placement") is None:
+            desc["f"]["placement"] = rnd_placement(rng)
+        steps = []
+        for _j in range(rng.randrange(1, 5)):
+            how = rng.choice(["set", "pset", "pset", "set_placement", "set_data", "set_filename", "none"]) if typ == "T" else rng.choice(["set", "set", "none"])
+            if how == "set":
+                steps.append({"how": "set", "kw": rnd_kw(rng, typ, nmax=2)})
+            elif how == "pset":
+                steps.append({"how": "pset", "kw": rnd_kw(rng, "P", P_FIELDS)})
+            elif how == "set_placement":
+                steps.append({"how": "set_placement", "kw": rnd_placement(rng)})
+            elif how == "set_data":
+                steps.append({"how": "set_data", "data": rnd_data(rng) or {"hex": ""}})
+            elif how == "set_filename":
+                steps.append({"how": "set_filename", "text": rng.choice(NAMES)})
+            else:
+                steps.append({"how": "none"})
+        yield {"k": "mutate", "cmd": desc, "shared": rng.random() < 0.4, "via": rng.choice(["to_bytes", "to_bytes", "send"]),
+               "stream": "bytesio" if typ == "T" and rng.random() < 0.15 else "bytes", "steps": steps}
+
+
 def run_corpus(ctx: Ctx, prop: str, check):
     corpus_dir = Path(__file__).resolve().parent.parent / "corpus" / prop
     if corpus_dir.is_dir():
@@ -606,13 +738,19 @@ def run(ctx: Ctx):
     ctx.rule = ("cases: transmit presence lattice over 27 slots (own fields, omit_action, placement and its 9 fields): all subsets of "
                 "size <=2 and >=n-1 plus random subsets at three densities; full lattices of continuation (2^3), put (2^12) and "
                 "delete (2^6) commands; values from {0,1,2^24-1,2^32-1} + digit-count boundaries + random; every enum member; "
-                "action selection table; payloads empty/binary/ESC-and-separator bytes/file names, bytes and BytesIO. "
+                "action selection table; payloads empty/binary/ESC-and-separator bytes/file names, bytes and BytesIO; "
+                "name payloads (7 names of 0..600 bytes) x file / temp-file / shared-memory media x limits {None,4096,...,40,0} through "
+                "send() and split(); commands DERIVED through clone_with (every field x {None, 0/False, value} one at a time on full "
+                "and sparse commands, random chains), get_pure_transmit_command, get_put_command, judged against the fields the caller "
+                "asked for, original re-checked; the SAME object serialised again after in-place edits (attribute assignment, every "
+                "nested PlacementData field, a placement object shared by two commands, set_placement / set_data / set_filename). "
                 "distinct = canonical JSON of the case; non-trivial = at least one optional field set or a payload")
     run_corpus(ctx, "C06", check_case)
-    for c in cases(ctx):
+    for c in itertools.chain(cases2(ctx), cases(ctx)):
         if ctx.time_left() < 0:
             ctx.count("skipped-over-budget")
             continue
         check_case(ctx, c)
-        ctx.case(c, nontrivial=(_nset(c["cmd"]) > 0 or bool(c["cmd"].get("data"))))
-    ctx.assumptions += ["field values are natural numbers, booleans or enum members (the declared types)"]
+        ctx.case(c, nontrivial=(_nset(c["cmd"]) > 0 or bool(c["cmd"].get("data")) or c["k"] != "cmd"))
+    ctx.assumptions += ["field values are natural numbers, booleans or enum members (the declared types)",
+                        "in-place edits assign values of the declared types; a stream payload is not written to between serialisations"]
